@@ -19,6 +19,8 @@ PROPS = {
     "f11": "C04 C20", "f12": "C08 C11",
     "e1": "C05 C06 C15", "e2": "C05", "e3": "C15", "e4": "C15", "e5": "C02 C06", "e6": "C02 C13 C06", "e7": "C01 C03 C06 C08 C09 C20", "e8": "C02 C08 C09",
     "e9": "C13 C09", "e10": "C14", "e11": "C12", "e12": "C07",
+    # fifth set: the functions put under contract or touched in the last session (pointer text codec, SelfPath, CLI, compound, printers)
+    "d1": "C14 C04 C15", "d2": "C04 C14 C05", "d3": "C14", "d4": "C14", "d5": "C02 C13 C08 C09", "d6": "C18", "d7": "C11 C08", "d8": "C10 C17 C06",
 }
 
 
